@@ -18,6 +18,8 @@ import numpy as np
 from mc import ref, alph
 from mc.core import call, HarnessError
 PI = math.pi
+_PRINT0 = {k: v for k, v in np.get_printoptions().items() if k != 'override_repr'}
+_ERR0 = dict(np.geterr())
 
 PROP = 'C17'
 LEVEL = 'model_checking'
@@ -163,6 +165,12 @@ def make(kind, form='1d', alt=0):
         return S.SpatialInertia(2.0 + alt, [0.1, 0.2, 0.3], np.diag([1.0, 2.0, 3.0]))
     if k == 'PL':
         return S.Plucker.PQ([1.0 + alt, 2, 3], [4.0, 6, 9])
+    if k == 'PLp':
+        return S.Plucker.PointDir([0.5, -1.0, 2.0 + alt], [9.0, 12.0, 18.0])        # parallel to PL (direction x 3), another point
+    if k == 'PLa':
+        return S.Plucker.PointDir([0.5, -1.0, 2.0 + alt], [-1.5, -2.0, -3.0])       # antiparallel, direction x -0.5
+    if k == 'PLi':
+        return S.Plucker.PQ([4.0, 6, 9], [2.0 + alt, -1.0, 0.5])                    # meets PL at its second defining point
     if k == 'PLN':
         return S.Plane.PN([1.0, -2.0 + alt, 0.5], [2.0, 1.0, -3.0])          # non-unit normal, non-zero offset
     if k == 'UQn':
@@ -333,6 +341,13 @@ def descriptors():
          ('base.slerp/shortest', lambda x, y: __import__('spatialmath.base', fromlist=['slerp']).slerp(x.vec, y.vec, 0.3, shortest=True), ['UQ', 'UQn'], {}),
          ('UnitQuaternion.eq', lambda x, y: x == y, ['UQ', 'UQn'], {}),
          ('Plucker.intersect_plane', lambda l, pl: l.intersect_plane(pl), ['PL', 'PLN'], {}),
+         ('Plucker.distance', lambda l, m: l.distance(m), ['PL', 'PL'], {}), ('Plucker.distance/par', lambda l, m: l.distance(m), ['PL', 'PLp'], {}),
+         ('Plucker.distance/par', lambda l, m: l.distance(m), ['PLp', 'PL'], {}), ('Plucker.distance/anti', lambda l, m: l.distance(m), ['PL', 'PLa'], {}),
+         ('Plucker.distance/meet', lambda l, m: l.distance(m), ['PL', 'PLi'], {}), ('Plucker.commonperp', lambda l, m: l.commonperp(m), ['PL', 'PLi'], {}),
+         ('Plucker.commonperp/skew', lambda l, m: l.commonperp(m), ['PL', 'PL'], {}), ('Plucker.isparallel', lambda l, m: l.isparallel(m), ['PL', 'PLp'], {}),
+         ('Plucker.xor', lambda l, m: l ^ m, ['PL', 'PLi'], {}), ('Plucker.xor/par', lambda l, m: l ^ m, ['PL', 'PLp'], {}), ('Plucker.or', lambda l, m: l | m, ['PL', 'PLa'], {}),
+         ('Plucker.eq', lambda l, m: l == m, ['PL', 'PLp'], {}), ('Plucker.ne', lambda l, m: l != m, ['PL', 'PLa'], {}),
+         ('Plucker.intersects', lambda l, m: l.intersects(m), ['PL', 'PLi'], {}), ('Plucker.intersects/par', lambda l, m: l.intersects(m), ['PL', 'PLp'], {}),
          ('Plucker.intersect_plane/4vec', lambda l, v: l.intersect_plane(v), ['PL', 'v4'], {}),
          ('Plucker.Planes', lambda p1, p2: sm().Plucker.Planes(p1, p2), ['PLN', 'PLN'], {}),
          ('Plane.contains', lambda pl, p: pl.contains(p), ['PLN', 'v3'], {}),
@@ -395,10 +410,24 @@ def fresh(d, forms=None, alt=0):
     return args
 
 
+def world():
+    """interpreter-wide state a library call has no business changing (a later identical call would print or round differently)"""
+    st = np.random.get_state()
+    return (repr(sorted(np.get_printoptions().items(), key=lambda kv: kv[0])), repr(sorted(np.geterr().items())), st[0], st[1][:8].tobytes(), st[2])
+
+
 def step(ctx, cid, d, args, live, P):
     """execute one call; `live` = list of (label, value, snapshot) that must survive. Returns (ok, result)"""
     before = [snap(a) for a in args]
+    w0 = world()
     ok, r = call(d.f, *args)
+    if not d.rand:
+        w1 = world()
+        if w1 != w0:
+            what = 'NumPy print options' if w1[0] != w0[0] else ('NumPy error handling' if w1[1] != w0[1] else 'the global random generator')
+            ctx.fail(cid, d.site, 'mutated', dict(P, arg='global', what=what), '%s changed %s' % (d.name, what))
+            np.set_printoptions(**_PRINT0)
+            np.seterr(**_ERR0)
     ctx.count('transitions')
     ctx.count('lockstep')
     for i, (a, s0) in enumerate(zip(args, before)):
@@ -515,6 +544,12 @@ def independent(ctx, k, K):
     DS = descriptors()
     second = [d for d in DS if not d.site.startswith('operator')] if ctx.tier == 'quick' else DS
     n = 0
+    # what each second call answers when nothing was called before it in this history
+    base2 = {}
+    for d2 in second:
+        if not d2.rand and not d2.mut:
+            okb, rb = call(d2.f, *fresh(d2, alt=1))
+            base2[d2.name] = (okb, snap(rb) if okb else type(rb).__name__)
     for di, d1 in enumerate(DS):
         if di % K != k or d1.rand:
             continue
@@ -539,6 +574,10 @@ def independent(ctx, k, K):
                 bad = 'the result of the earlier call %s' % d1.name
             elif [snap(a) for a in a1] != sa:
                 bad = 'an argument of the earlier call %s' % d1.name
+            if d2.name in base2 and base2[d2.name] != (ok2, snap(r2) if ok2 else type(r2).__name__):
+                ctx.fail(cid, d2.site, 'mismatch', dict(desc=d2.name.split('#')[0].split('/')[0], first=d1.name.split('#')[0].split('/')[0], depth=2, mode='independent', what='history'),
+                         '%s on equal inputs answers differently after %s than before it' % (d2.name, d1.name))
+                np.set_printoptions(**_PRINT0)
             if bad:
                 ctx.fail(cid, d2.site, 'mutated', dict(desc=d2.name.split('#')[0].split('/')[0], first=d1.name.split('#')[0].split('/')[0], depth=2, mode='independent'),
                          'calling %s changed %s' % (d2.name, bad))
